@@ -1,1 +1,75 @@
-pub fn run(_t: &[&str]) -> Vec<i128> { unimplemented!() }
+// C09: command construction and serialization into a Vec or a fixed slice.
+use crate::{eclass, parse, pat_data};
+use cameleon_device::u3v::prelude::*;
+use cameleon_device::u3v::protocol::cmd::{self, CommandPacket};
+
+fn show<T: CommandScd>(p: CommandPacket<T>, cap: i64) -> Vec<i128> {
+    let mut out = vec![0, p.cmd_len() as i128, p.maximum_ack_len() as i128];
+    if cap < 0 {
+        let mut buf = vec![];
+        let r = p.serialize(&mut buf);
+        out.push(r.as_ref().err().map(eclass).unwrap_or(0));
+        out.push(buf.len() as i128);
+        out.extend(buf.iter().map(|b| *b as i128));
+    } else {
+        let mut buf = vec![0u8; cap as usize];
+        let rem;
+        let r;
+        {
+            let mut cur = &mut buf[..];
+            r = p.serialize(&mut cur);
+            rem = cur.len();
+        }
+        let written = cap as usize - rem;
+        out.push(r.as_ref().err().map(eclass).unwrap_or(0));
+        out.push(written as i128);
+        out.extend(buf[..written].iter().map(|b| *b as i128));
+    }
+    out
+}
+
+pub fn run(t: &[&str]) -> Vec<i128> {
+    match t[0] {
+        "c09r" => {
+            let (a, n, id, cap): (u64, u16, u16, i64) = (parse(t[1]), parse(t[2]), parse(t[3]), parse(t[4]));
+            show(cmd::ReadMem::new(a, n).finalize(id), cap)
+        }
+        "c09w" => {
+            let (a, n, seed, id, cap): (u64, usize, u64, u16, i64) =
+                (parse(t[1]), parse(t[2]), parse(t[3]), parse(t[4]), parse(t[5]));
+            let data = pat_data(seed, n);
+            match cmd::WriteMem::new(a, &data) {
+                Err(e) => vec![1, eclass(&e)],
+                Ok(w) => show(w.finalize(id), cap),
+            }
+        }
+        "c09rs" => {
+            let (id, cap): (u16, i64) = (parse(t[1]), parse(t[2]));
+            let es: Vec<cmd::ReadMem> =
+                t[3..].chunks(2).map(|c| cmd::ReadMem::new(parse(c[0]), parse(c[1]))).collect();
+            match cmd::ReadMemStacked::new(es) {
+                Err(e) => vec![1, eclass(&e)],
+                Ok(c) => show(c.finalize(id), cap),
+            }
+        }
+        "c09ws" => {
+            let (id, cap): (u16, i64) = (parse(t[1]), parse(t[2]));
+            let datas: Vec<(u64, Vec<u8>)> = t[3..]
+                .chunks(3)
+                .map(|c| (parse::<u64>(c[0]), pat_data(parse(c[2]), parse(c[1]))))
+                .collect();
+            let mut es = vec![];
+            for (a, d) in &datas {
+                match cmd::WriteMem::new(*a, d) {
+                    Err(e) => return vec![1, eclass(&e)],
+                    Ok(w) => es.push(w),
+                }
+            }
+            match cmd::WriteMemStacked::new(es) {
+                Err(e) => vec![1, eclass(&e)],
+                Ok(c) => show(c.finalize(id), cap),
+            }
+        }
+        k => panic!("unknown kind {}", k),
+    }
+}
